@@ -160,7 +160,7 @@ func checkToNumber(c textCase) harness.Outcome {
 
 var toNumberFacet = harness.Register(&harness.Facet[textCase]{
 	Name: "string-to-number",
-	Rule: "rapid: strings from the StringNumericLiteral grammar: every StrDecimalLiteral alternative (digits of 1..1100 characters with leading zeros, fraction, exponent with e/E, sign, leading zeros, magnitudes 0..25, 285..400 and beyond int32), Infinity, signs, hex literals up to 30 digits, texts derived from doubles (shortest form, exact expansion, the exact midpoint between adjacent doubles and ±1 in a far digit, truncated expansions), 0..3 leading/trailing StrWhiteSpaceChar of every kind; 40% get one edit (insert/delete/replace/duplicate/swap over digits, . e E + - x _ letters of Infinity/NaN, look-alike digits, NUL, ZWSP, NEL) and 10% come from a near-miss pool; Number(s), +s, s-0, s*1, new Number(s).valueOf() against a hand-written recogniser with exact rational value rounded half-even (lib/es5.StringToNumber verified against it on every case); non-trivial = not 1..15 plain digits; distinct by string",
+	Rule: "rapid: strings from the StringNumericLiteral grammar: every StrDecimalLiteral alternative (digits of 1..1100 characters with leading zeros, fraction, exponent with e/E, sign, leading zeros, magnitudes 0..25, 285..400 and beyond int32), Infinity, signs, hex literals up to 30 digits, texts derived from doubles (shortest form, exact expansion, the exact midpoint between adjacent doubles and ±1 in a digit 0..30 or 700..1500 places further right, truncated expansions), long sticky shapes (\"0.\" + 700..1500 zeros + digits + an exponent that scales them back; a tie integer + \".\" + 700..1500 zeros + one digit; tie−1 followed by 700..1500 nines; a scaled-down tie), 0..3 leading/trailing StrWhiteSpaceChar of every kind; 40% get one edit (insert/delete/replace/duplicate/swap over digits, . e E + - x _ letters of Infinity/NaN, NUL, and 45 non-ASCII look-alikes: KELVIN SIGN, dotted/dotless I, long s, fullwidth / Arabic-Indic / Devanagari / Thai digits, superscripts, Roman numerals, Greek and Cyrillic a e x, ZWSP, NEL, WORD JOINER, MINUS SIGN, fullwidth + and .) and 10% come from a near-miss pool; Number(s), +s, s-0, s*1, new Number(s).valueOf() against a hand-written recogniser with exact rational value rounded half-even (lib/es5.StringToNumber verified against it on every case); non-trivial = not 1..15 plain digits; distinct by string",
 	Quick: 9000, Thorough: 120000,
 	Gen: func(t *rapid.T) textCase {
 		u, kind, mut := genWholeString(t)
@@ -329,7 +329,16 @@ func genParseIntCase(t *rapid.T) parseIntCase {
 	if rapid.IntRange(0, 4).Draw(t, "breaker") == 0 {
 		// a character that is not a digit of the radix, somewhere
 		p := rapid.IntRange(0, len(s)).Draw(t, "bpos")
-		s = s[:p] + string(rune(rapid.SampledFrom([]uint16{'z', 'g', '9', '8', '2', '.', 'e', '_', ' ', '-', '+', 'x', 'G', 'Z'}).Draw(t, "bchar"))) + s[p:]
+		br := string(rune(rapid.SampledFrom([]uint16{'z', 'g', '9', '8', '2', '.', 'e', '_', ' ', '-', '+', 'x', 'G', 'Z'}).Draw(t, "bchar")))
+		if rapid.Bool().Draw(t, "lookalike") {
+			// a non-ASCII character that case folding or a Unicode category relates to a digit or letter
+			br = string(rune(rapid.SampledFrom(lookAlikes).Draw(t, "bchar2")))
+			if rapid.IntRange(0, 7).Draw(t, "astral") == 0 {
+				br = rapid.SampledFrom([]string{"\U0001D7CE", "\U0001D7D1", "\U00010400", "\U00010428"}).Draw(t, "bastral")
+			}
+			c.Kind += "-lookalike"
+		}
+		s = s[:p] + br + s[p:]
 		c.Kind += "+breaker"
 	}
 	u := append(genWS(t, "lws"), harness.UTF16(s)...)
@@ -455,7 +464,7 @@ func closeRel(a, b, tol float64) bool {
 
 var parseIntFacet = harness.Register(&harness.Facet[parseIntCase]{
 	Name: "parseint",
-	Rule: "rapid: radix argument {omitted, undefined, each of 2..36, 0, 1, 37, negative, fractional, 2^32+2, 2^32+16, 2^31+8, 2^53, 1e21, ±Infinity, NaN, -0, numeric strings incl. \"0x10\", null, booleans} × string {1..90 digits of the effective radix in both letter cases, special integers around 2^53 / 2^63 / 2^64 / 20-21 digits, leading zeros, 0x/0X prefix, sign, leading white space of every kind, a character outside the radix inserted anywhere, junk suffix; 25% the parseFloat strings}; oracle: 15.1.2.2 with exact big-integer value rounded half-even, -0 for \"-0\"; mandated exactly for radix 2/4/8/16/32 and for radix 10 up to 20 significant digits (beyond: also the value with later digits read as 0), other radixes exactly below 2^53 and within (digits+2)·2^-52 relative above (implementation-dependent approximation allowed); String(result) must be ToString of that double; non-trivial = not (1..15 plain digits with radix omitted or 10); distinct by (string, radix argument)",
+	Rule: "rapid: radix argument {omitted, undefined, each of 2..36, 0, 1, 37, negative, fractional, 2^32+2, 2^32+16, 2^31+8, 2^53, 1e21, ±Infinity, NaN, -0, numeric strings incl. \"0x10\", null, booleans} × string {1..90 digits of the effective radix in both letter cases, special integers around 2^53 / 2^63 / 2^64 / 20-21 digits, leading zeros, 0x/0X prefix, sign, leading white space of every kind, a character outside the radix inserted anywhere (half of the time a non-ASCII look-alike that case folding or a Unicode category relates to a digit or radix letter: U+212A, U+0130, U+0131, U+017F, fullwidth and other-script digits and letters, astral digits), junk suffix incl. the same look-alikes; 25% the parseFloat strings}; oracle: 15.1.2.2 with exact big-integer value rounded half-even, -0 for \"-0\"; mandated exactly for radix 2/4/8/16/32 and for radix 10 up to 20 significant digits (beyond: also the value with later digits read as 0), other radixes exactly below 2^53 and within (digits+2)·2^-52 relative above (implementation-dependent approximation allowed); String(result) must be ToString of that double; non-trivial = not (1..15 plain digits with radix omitted or 10); distinct by (string, radix argument)",
 	Quick: 9000, Thorough: 120000,
 	Gen:   genParseIntCase,
 	Check: checkParseInt,
